@@ -183,7 +183,7 @@ PROPS = {
         ],
     },
     "C04": {
-        "explanation": "COWGUARD: typestate over the clang CFG (ghost facts fresh/noshared/noimm per buffer pointer, carried as trace partitions of the interval analysis): in every "
+        "explanation": "LINBUF: relational abstract interpretation (section 3.6 of DESIGN.md) of the 21 functions of the C array/buffer files from the most general state in which every buffer satisfies INV(b): _used <= _size, _size bytes of payload follow the header (unknown buffer pointers are null or such a buffer). Shown for all inputs: each memcpy/memmove/memset/indexed store into a payload, a caller buffer with length contract, a local array or a fresh allocation stays inside it; INV holds again at every return for every buffer the parameters lead to; no member access through a pointer that is null on that path (allocation failure). The allocation contract `_mpt_buffer_alloc(len)`: null or a fresh buffer with _size >= len, _used == 0, and the detach() slot contract: null or a buffer with _size >= len, are used at call sites and checked on _mpt_buffer_alloc / _mpt_buffer_alloc_detach themselves (POST, with the page-size rounding handled by a quotient/product relation and the global page size kept in {0} u [8, 4 MiB+8]). COWGUARD: typestate over the clang CFG (ghost facts fresh/noshared/noimm per buffer pointer, carried as trace partitions of the interval analysis): in every "
                        "function taking an array/slice/encode_array/path handle, each store to the buffer's used length, each mem* into its payload and each call of a buffer-level "
                        "mutator is reached only with a private buffer (detach()/allocation result on that path, a get_flags() test excluding BufferShared and BufferImmutable, a "
                        "private-making handle-level callee that succeeded, or a file-local helper all of whose call sites hold such a guard; the restore-length idiom is accepted). "
@@ -191,9 +191,9 @@ PROPS = {
                        "function's own null tests - no dereference on a path class where the pointer is known null. OBJSIZE: copy calls do not read past a source of known size; "
                        "literal zero lengths with a real source are dead copies. STATUSPOLARITY, LAZYINIT, BOUNDSTALE: status/lazy-init/loop-bound idioms. ERRFX on the buffer and "
                        "array primitives: no store into the object on a path that then refuses.",
-        "not_decided": "equality with a value-semantics vector after arbitrary histories (contents, zero fill, exact lengths); the C++ container templates beyond NULLCONTRA/OBJSIZE",
+        "not_decided": "equality with a value-semantics vector after arbitrary histories (contents, zero fill, exact lengths); element walks that multiply by a run-time element size (init/fini loops); the C++ container templates beyond NULLCONTRA/OBJSIZE",
         "assumptions": ["type_traits.size is non-zero for registered traits (DIVZERO is not armed on element-size divisions)"],
-        "technique": "CFG typestate with trace partitioning (copy-on-write discipline), staleness after may-reallocate calls, null-test partitioning, copy-size intervals",
+        "technique": "relational abstract interpretation (LINBUF: linear constraints, payload regions, inductive buffer invariant, allocation/detach contracts checked on their implementations); CFG typestate with trace partitioning (copy-on-write discipline), staleness after may-reallocate calls, null-test partitioning, copy-size intervals",
         "level_text": "Decides the aliasing discipline: every write through an array handle in the C layer happens on a private buffer on all paths (24 write sites in 13 functions), "
                       "plus refusal and fault clauses of the array API. A write that reaches a possibly shared buffer is exactly 'the other handle changes'.",
         "level_note": "handle-level scope: functions with a non-const array/slice/encode_array/path parameter in the anchor files and the path/push/message helpers; buffer-level API "
@@ -201,6 +201,7 @@ PROPS = {
         "extra_scope_files": ["mptcore/config/path_addchar.c", "mptcore/config/path_add.c", "mptcore/config/path_del.c", "mptcore/config/path_set.c",
                               "mptcore/array/array_push.c", "mptcore/array/array_message.c", "mptcore/message/message_append.c"],
         "rules": [
+            {"run": rules_lin.run_linbuf, "floor": 45, "use_anchor_files": True, "ctx": {"only_dir": "mptcore/array/"}},
             {"run": rules_cow.run, "floor": 20, "use_anchor_files": True},
             {"run": rules_cow.run_sliceoff, "floor": 2, "use_anchor_files": True},
             {"run": rules_path.run_nullcontra, "floor": 60, "use_anchor_files": True},
